@@ -1,6 +1,38 @@
--- shard 2 of the closeness / tick-gap sweep (C06 (c), (e)): |tick| in [65536, 98304)
+-- shard 2 of the closeness / tick-gap sweep (C06 (c), (e)): |tick| in [65536, 98304), 16 blocks of 2^11
 import Proofs.Lemmas.ClosePred
 namespace Demeter.TickClose
 set_option maxRecDepth 100000 in
-theorem close_shard_02 : chkN closeSweepPred 65536 shardBits = true := by decide +kernel
+theorem close_blk_65536 : chkN closeSweepPred 65536 11 = true := by decide +kernel
+set_option maxRecDepth 100000 in
+theorem close_blk_67584 : chkN closeSweepPred 67584 11 = true := by decide +kernel
+set_option maxRecDepth 100000 in
+theorem close_blk_69632 : chkN closeSweepPred 69632 11 = true := by decide +kernel
+set_option maxRecDepth 100000 in
+theorem close_blk_71680 : chkN closeSweepPred 71680 11 = true := by decide +kernel
+set_option maxRecDepth 100000 in
+theorem close_blk_73728 : chkN closeSweepPred 73728 11 = true := by decide +kernel
+set_option maxRecDepth 100000 in
+theorem close_blk_75776 : chkN closeSweepPred 75776 11 = true := by decide +kernel
+set_option maxRecDepth 100000 in
+theorem close_blk_77824 : chkN closeSweepPred 77824 11 = true := by decide +kernel
+set_option maxRecDepth 100000 in
+theorem close_blk_79872 : chkN closeSweepPred 79872 11 = true := by decide +kernel
+set_option maxRecDepth 100000 in
+theorem close_blk_81920 : chkN closeSweepPred 81920 11 = true := by decide +kernel
+set_option maxRecDepth 100000 in
+theorem close_blk_83968 : chkN closeSweepPred 83968 11 = true := by decide +kernel
+set_option maxRecDepth 100000 in
+theorem close_blk_86016 : chkN closeSweepPred 86016 11 = true := by decide +kernel
+set_option maxRecDepth 100000 in
+theorem close_blk_88064 : chkN closeSweepPred 88064 11 = true := by decide +kernel
+set_option maxRecDepth 100000 in
+theorem close_blk_90112 : chkN closeSweepPred 90112 11 = true := by decide +kernel
+set_option maxRecDepth 100000 in
+theorem close_blk_92160 : chkN closeSweepPred 92160 11 = true := by decide +kernel
+set_option maxRecDepth 100000 in
+theorem close_blk_94208 : chkN closeSweepPred 94208 11 = true := by decide +kernel
+set_option maxRecDepth 100000 in
+theorem close_blk_96256 : chkN closeSweepPred 96256 11 = true := by decide +kernel
+theorem close_shard_02 : chkN closeSweepPred 65536 shardBits = true :=
+  (chkN_join _ 65536 14 (chkN_join _ 65536 13 (chkN_join _ 65536 12 (chkN_join _ 65536 11 close_blk_65536 close_blk_67584) (chkN_join _ 69632 11 close_blk_69632 close_blk_71680)) (chkN_join _ 73728 12 (chkN_join _ 73728 11 close_blk_73728 close_blk_75776) (chkN_join _ 77824 11 close_blk_77824 close_blk_79872))) (chkN_join _ 81920 13 (chkN_join _ 81920 12 (chkN_join _ 81920 11 close_blk_81920 close_blk_83968) (chkN_join _ 86016 11 close_blk_86016 close_blk_88064)) (chkN_join _ 90112 12 (chkN_join _ 90112 11 close_blk_90112 close_blk_92160) (chkN_join _ 94208 11 close_blk_94208 close_blk_96256))))
 end Demeter.TickClose
